@@ -222,6 +222,12 @@ func (s *scen) replyMember() member {
 		codes := []int{-32000, 7, -32097, -32096, -32601}
 		return mkReplyError(id, pick(s.g, codes), "cb failed")
 	}
+	switch s.g.intn(8) {
+	case 0:
+		return mkReplyNoVersion(id, pick(s.g, []string{"true", `{"x":1}`, "17"}))
+	case 1:
+		return mkReplyExtra(id, pick(s.g, []string{"true", `"s"`}))
+	}
 	return mkReplyResult(id, pick(s.g, []string{"true", `{"x":1}`, "null", `"s"`, "17"}))
 }
 
